@@ -2,7 +2,11 @@
 
 package gtree
 
-import "sync/atomic"
+import (
+	"context"
+	"io"
+	"sync/atomic"
+)
 
 // VerifHook, when set, is called at every pipeline hand-over point with the
 // name of the point. It exists only in builds with the "verif" tag and is used
@@ -22,4 +26,30 @@ func verifPoint(name string) {
 	if f := verifHook.Load(); f != nil {
 		(*f)(name)
 	}
+}
+
+// VerifSplit runs the massive mode's input splitter on r and returns the root
+// blocks it sends, in order, and the error it reports (if any).
+func VerifSplit(r io.Reader) ([]string, error) {
+	ctx, cancel := context.WithCancel(context.Background())
+	defer cancel()
+	blockc, errc := split(ctx, r)
+	var blocks []string
+	for blockc != nil || errc != nil {
+		select {
+		case b, ok := <-blockc:
+			if !ok {
+				blockc = nil
+				continue
+			}
+			blocks = append(blocks, b)
+		case err, ok := <-errc:
+			if !ok {
+				errc = nil
+				continue
+			}
+			return blocks, err
+		}
+	}
+	return blocks, nil
 }
